@@ -3,6 +3,8 @@ import typing
 
 from .deserialize import Boc, NullCell
 from .exotic import LevelMask, CellTypes
+from bitarray import bitarray
+
 from .tvm_bitarray import TvmBitarray, BitarrayLike
 from ..crypto.crc import crc32c
 
@@ -21,6 +23,8 @@ class Cell(NullCell):
         if not isinstance(bits, TvmBitarray):
             # keep an own bounds-checked copy: a plain bitarray was padded in place by get_data_bytes()
             # (changing the caller's array and this cell's bits) and let slices read past the end silently
+            if getattr(bits, 'endian', 'big') != 'big':
+                bits = bitarray(bits.tolist())  # same bit sequence, packed most significant bit first like everything else here
             bits = TvmBitarray(1023, bits)
         self.bits: BitarrayLike = bits
         self.refs: list = refs
